@@ -46,7 +46,7 @@ def gen_case(rng, idx, tier):
         elif mode == "ends-only":
             nodes = [a, b]
         d = cv.enc_curve(cur, nt)
-        d.update(kind="split", mode=mode, nodes=lib.enc(nodes))
+        d.update(kind="split", mode=mode, nodes=lib.enc(nodes), argform=rng.choice(["list", "list", "tuple", "array"]))
         return d
     # independent adjacent pair
     A = gen.curve(rng, nintmax=2, pmax=3, dim=rng.choice([0, 2]))
@@ -86,7 +86,7 @@ def run_split(case, ctx):
     nodes_n = [lib.num(x, nt) for x in lib.dec(case["nodes"])]
     nodes_q = [ref.fr(x) for x in nodes_n]
     pre = lib.curve_digest(curve)
-    o = call(curve.split) if mode == "noarg" else call(curve.split, nodes_n)
+    o = call(curve.split) if mode == "noarg" else call(curve.split, lib.container(nodes_n, case.get("argform", "list")))
     cv.unchanged(ctx, curve, pre, "split:modified", "split")
     if mode == "outside":
         ctx.check((not o.ok) and isinstance(o.exc, ValueError), "split:outside", f"split with a node outside: {o.brief() if not o.ok else 'accepted'}")
